@@ -52,6 +52,19 @@ def sampleV3 : TzFile :=
 def sampleRule3 : Rule :=
   .alt ⟨⟨-10800, false, some (asc "-03")⟩, ⟨-7200, true, some (asc "-02")⟩, .mwd 3 5 0, -7200, .mwd 10 5 0, -3600⟩
 
+/-- the file of finding #10 (DESIGN.md §9): version 2, transitions at `0` and `i64::MAX − 5`, the
+second one switching to UTC+2; no footer.  `transition time + offset` exceeds `i64::MAX`. -/
+def sampleF10 : TzFile :=
+  { version := .V2
+    v1 := { trans := [], types := [⟨0, false, 0⟩], names := [0], leaps := [], stdWalls := [], utLocals := [] }
+    v2 := { trans := [(0, 0), (9223372036854775802, 1)]
+            types := [⟨0, false, 0⟩, ⟨7200, true, 4⟩]
+            names := asc "UTC" ++ [0] ++ asc "XDT" ++ [0]
+            leaps := []
+            stdWalls := []
+            utLocals := [] }
+    footer := [] }
+
 /-- offset of the footer's first newline in a written v2/v3 file -/
 def footerStart (f : TzFile) : Nat := (encodeTzif f).length - (f.footer.length + 2)
 
